@@ -1,4 +1,304 @@
-import PysnarkModel.Model.Prog
+import PysnarkModel.Lemmas.Values
+import PysnarkModel.Lemmas.ValuesDispatch
+import PysnarkModel.Spec.R1CS
+/-!
+# C05 — traced arithmetic agrees with Python semantics, or raises
+
+For every typed gadget `g` of `Model/Gadgets.lean`: if `g a b s = .ok (r, s')` then `r.value` is
+the value that the same expression has on the plain Python integers `a.value`, `b.value`
+(`C05_<op>_agrees`).  The hypotheses are: error checking has not been switched off
+(`s.ignoreErrors = false`) and, where the code consults `is_guard()`, no guard is active
+(`s.guard = none`).  No invariant hypothesis is needed.  `C05_<op>_total` says when the gadget does
+not raise.  `C05_cex_*` are the recorded deviations of the code from Python, evaluated on the
+executable model.
+
+Python's `//` and `%` are `Int.fdiv` and `Int.fmod` (`Py.floordiv`, `Py.mod`), `>>` on a
+non-negative count is `Int.shiftRight`, `&`, `|`, `^` on non-negative operands are
+`Nat.land/lor/xor`.
+-/
 namespace Pysnark
-example : True := trivial
+
+section agrees
+variable {s s' : St} {a b c t f r : LinComb} {k : Int}
+
+/-! ### ring operations -/
+theorem C05_linear_agrees :
+    (a.add b).value = a.value + b.value ∧ (a.sub b).value = a.value - b.value ∧
+    a.neg.value = -a.value ∧ (a.mulI k).value = a.value * k ∧ (a.addI k).value = a.value + k ∧
+    (a.subI k).value = a.value - k ∧ (a.rsubI k).value = k - a.value ∧ (LinComb.const k).value = k :=
+  ⟨rfl, sub_value a b, rfl, rfl, rfl, subI_value a k, rsubI_value a k, rfl⟩
+
+theorem C05_mul_agrees (h : mulLL a b s = .ok (r, s')) : r.value = a.value * b.value :=
+  (mulLL_val h).2
+
+theorem C05_mul_total : ∃ r s', mulLL a b s = .ok (r, s') := mulLL_total a b s
+
+/-! ### comparisons, as 0/1 -/
+theorem C05_eq_agrees (h : eqLL a b s = .ok (r, s')) : r.value = if a.value = b.value then 1 else 0 :=
+  (eqLL_val h).2
+theorem C05_ne_agrees (h : neLL a b s = .ok (r, s')) : r.value = if a.value ≠ b.value then 1 else 0 := by
+  rw [(neLL_val h).2]; split <;> simp_all
+theorem C05_eq_const_agrees (h : eqLI a k s = .ok (r, s')) : r.value = if a.value = k then 1 else 0 :=
+  (eqLI_val h).2
+theorem C05_ne_const_agrees (h : neLI a k s = .ok (r, s')) : r.value = if a.value ≠ k then 1 else 0 := by
+  rw [(neLI_val h).2]; split <;> simp_all
+theorem C05_check_zero_agrees (h : checkZero a s = .ok (r, s')) : r.value = if a.value = 0 then 1 else 0 :=
+  (checkZero_val h).2
+theorem C05_check_nonzero_agrees (h : checkNonzero a s = .ok (r, s')) :
+    r.value = if a.value ≠ 0 then 1 else 0 := by
+  rw [(checkNonzero_val h).2]; split <;> simp_all
+
+theorem C05_lt_agrees (hp : Plain s) (h : ltLL a b s = .ok (r, s')) :
+    r.value = if a.value < b.value then 1 else 0 := (ltLL_val hp.guard hp.ign h).2
+theorem C05_le_agrees (hp : Plain s) (h : leLL a b s = .ok (r, s')) :
+    r.value = if a.value ≤ b.value then 1 else 0 := (leLL_val hp.guard hp.ign h).2
+theorem C05_gt_agrees (hp : Plain s) (h : gtLL a b s = .ok (r, s')) :
+    r.value = if a.value > b.value then 1 else 0 := (gtLL_val hp.guard hp.ign h).2
+theorem C05_ge_agrees (hp : Plain s) (h : geLL a b s = .ok (r, s')) :
+    r.value = if a.value ≥ b.value then 1 else 0 := (geLL_val hp.guard hp.ign h).2
+theorem C05_lt_const_agrees (hp : Plain s) (h : ltLI a k s = .ok (r, s')) :
+    r.value = if a.value < k then 1 else 0 := (ltLI_val hp.guard hp.ign h).2
+theorem C05_le_const_agrees (hp : Plain s) (h : leLI a k s = .ok (r, s')) :
+    r.value = if a.value ≤ k then 1 else 0 := (leLI_val hp.guard hp.ign h).2
+theorem C05_gt_const_agrees (hp : Plain s) (h : gtLI a k s = .ok (r, s')) :
+    r.value = if a.value > k then 1 else 0 := (gtLI_val hp.guard hp.ign h).2
+theorem C05_ge_const_agrees (hp : Plain s) (h : geLI a k s = .ok (r, s')) :
+    r.value = if a.value ≥ k then 1 else 0 := (geLI_val hp.guard hp.ign h).2
+theorem C05_check_positive_agrees {bits : Option Nat} (hp : Plain s)
+    (h : checkPositive a bits s = .ok (r, s')) : r.value = if a.value ≥ 0 then 1 else 0 :=
+  (checkPositive_val hp.guard hp.ign h).2.1
+
+/-- `check_zero` raises only when the field inverse does, i.e. (for a prime modulus) only for a
+non-zero multiple of the modulus -/
+theorem C05_check_zero_total :
+    (∃ r s', checkZero a s = .ok (r, s')) ↔
+      (Py.invert (a.value + (if a.value == 0 then 1 else 0)) s.p).isSome := checkZero_ok_iff
+
+/-- over a prime field: `check_zero` (hence `==`, `!=`) raises exactly for a non-zero multiple of
+the modulus — outside the documented domain `|x| < 2^bitlength < p` -/
+theorem C05_check_zero_total_prime (hP : PrimeP s) :
+    (∃ r s', checkZero a s = .ok (r, s')) ↔ ¬ (a.value ≠ 0 ∧ a.value % s.p = 0) :=
+  checkZero_ok_iff_prime hP
+
+/-- `check_positive` is total exactly on the documented domain `|x| < 2^bitlength` -/
+theorem C05_check_positive_total {bits : Option Nat} (hp : Plain s) :
+    (∃ r s', checkPositive a bits s = .ok (r, s')) ↔ Py.bitLength a.value ≤ bits.getD s.bitlength :=
+  checkPositive_ok_iff hp.guard hp.ign
+
+theorem C05_lt_total (hp : Plain s) (hb : Py.bitLength (b.value - a.value - 1) ≤ s.bitlength) :
+    ∃ r s', ltLL a b s = .ok (r, s') := ltLL_total hp.guard hb
+
+/-! ### division -/
+/-- `/` (exact division): returns the quotient when the division is exact, raises otherwise -/
+theorem C05_truediv_agrees (hp : Plain s) (h : truedivLL a b s = .ok (r, s')) :
+    b.value ≠ 0 ∧ Py.mod a.value b.value = 0 ∧ r.value = Py.floordiv a.value b.value ∧
+      r.value * b.value = a.value :=
+  (truedivLL_val hp.guard hp.ign h).2
+theorem C05_truediv_const_agrees (hp : Plain s) (h : truedivLI a k s = .ok (r, s')) :
+    k ≠ 0 ∧ Py.mod a.value k = 0 ∧ r.value = Py.floordiv a.value k ∧ r.value * k = a.value :=
+  (truedivLI_val hp.guard hp.ign h).2
+
+/-- `divmod`, `//`, `%`: Python's floor division and modulo -/
+theorem C05_divmod_agrees {qr : LinComb × LinComb} (h : divmodLL a b s = .ok (qr, s')) :
+    qr.1.value = Py.floordiv a.value b.value ∧ qr.2.value = Py.mod a.value b.value ∧
+      qr.1.value * b.value + qr.2.value = a.value :=
+  ⟨(divmodLL_val h).2.2.1, (divmodLL_val h).2.2.2.1, divmodLL_recompose h⟩
+
+/-- RECORDED DEVIATION (C05-neg-divisor): for a negative divisor the code raises, Python does not -/
+theorem C05_divmod_neg_divisor_raises (hi : s.ignoreErrors = false) (hd : b.value < 0) :
+    ∃ e, divmodLL a b s = .error e := divmodLL_neg_divisor_raises hd hi
+
+/-! ### powers, selection, absolute value -/
+theorem C05_pow_agrees {n : Nat} (hn : 1 ≤ n) (h : powLN a n s = .ok (r, s')) : r.value = a.value ^ n := by
+  obtain ⟨m, rfl⟩ : ∃ m, n = m + 1 := ⟨n - 1, by omega⟩
+  exact (powLN_val m h).2
+/-- `x ** 0` is `LinComb.ONE`, whose value is 1 outside guards -/
+theorem C05_pow_zero_agrees (h1 : s.one = oneSafe) (h : powLN a 0 s = .ok (r, s')) : r.value = a.value ^ 0 := by
+  rw [(powLN_zero_val h).2, h1]; simp [oneSafe]
+theorem C05_pow_total (n : Nat) : ∃ r s', powLN a n s = .ok (r, s') := powLN_total a n s
+
+theorem C05_ite_agrees (hc : c.value = 0 ∨ c.value = 1) (h : iteLLL c t f s = .ok (r, s')) :
+    r.value = if c.value = 1 then t.value else f.value := iteLLL_val_bool hc h
+theorem C05_ite_total : ∃ r s', iteLLL c t f s = .ok (r, s') := iteLLL_total c t f s
+
+theorem C05_abs_agrees (hp : Plain s) (h : absL a s = .ok (r, s')) : r.value = |a.value| := by
+  rw [(absL_val hp.guard hp.ign h).2, Int.abs_eq_natAbs]
+
+/-! ### bits and shifts -/
+theorem C05_to_bits_agrees {bits : Option Nat} {rs : List LinComb} (hi : s.ignoreErrors = false)
+    (h : toBits a bits s = .ok (rs, s')) :
+    rs.map (·.value) = Py.bitsOf a.value (bits.getD s.bitlength) ∧ 0 ≤ a.value ∧
+      Py.bitLength a.value ≤ bits.getD s.bitlength ∧ valFB (fromBits rs) = a.value :=
+  ⟨(toBits_val h).2.1, ((toBits_val h).2.2 hi).1, ((toBits_val h).2.2 hi).2, toBits_fromBits hi h⟩
+
+theorem C05_to_bits_total {bits : Option Nat} (hp : Plain s) (h0 : 0 ≤ a.value)
+    (hb : Py.bitLength a.value ≤ bits.getD s.bitlength) : ∃ rs s', toBits a bits s = .ok (rs, s') := by
+  obtain ⟨rs, s', h, -⟩ := toBits_total (bits := bits) hp.guard h0 hb
+  exact ⟨rs, s', h⟩
+
+theorem C05_from_bits_agrees (bs : List LinComb) : valFB (fromBits bs) = bitsVal (bs.map (·.value)) 0 :=
+  valFB_fromBits bs
+
+theorem C05_lshift_agrees (h : lshiftLI a k s = .ok (r, s')) : 0 ≤ k ∧ r.value = a.value <<< k.toNat := by
+  obtain ⟨-, hk, v⟩ := lshiftLI_val h
+  refine ⟨hk, ?_⟩
+  rw [v, Int.shiftLeft_eq]
+
+theorem C05_rshift_agrees {o : Option LinComb} (hk : 0 ≤ k) (hi : s.ignoreErrors = false)
+    (h : rshiftLI a k s = .ok (o, s')) : valFB o = a.value >>> k.toNat :=
+  (rshiftLI_val hk hi h).2.2
+
+/-! ### bitwise operations on two secret integers (operands checked to be in `[0, 2^bitlength)`) -/
+theorem C05_and_agrees {o : Option LinComb} (hi : s.ignoreErrors = false) (h : andLL a b s = .ok (o, s')) :
+    0 ≤ a.value ∧ 0 ≤ b.value ∧ valFB o = ((a.value.toNat &&& b.value.toNat : Nat) : Int) :=
+  ⟨(andLL_val hi h).2.1, (andLL_val hi h).2.2.1, (andLL_val hi h).2.2.2.2.2⟩
+theorem C05_or_agrees {o : Option LinComb} (hi : s.ignoreErrors = false) (h : orLL a b s = .ok (o, s')) :
+    0 ≤ a.value ∧ 0 ≤ b.value ∧ valFB o = ((a.value.toNat ||| b.value.toNat : Nat) : Int) :=
+  ⟨(orLL_val hi h).2.1, (orLL_val hi h).2.2.1, (orLL_val hi h).2.2.2.2.2⟩
+theorem C05_xor_agrees {o : Option LinComb} (hi : s.ignoreErrors = false) (h : xorLL a b s = .ok (o, s')) :
+    0 ≤ a.value ∧ 0 ≤ b.value ∧ valFB o = ((a.value.toNat ^^^ b.value.toNat : Nat) : Int) :=
+  ⟨(xorLL_val hi h).2.1, (xorLL_val hi h).2.2.1, (xorLL_val hi h).2.2.2.2.2⟩
+
+/-- RECORDED DEVIATION (C05-invert): `~x` is the `bitlength`-wide complement `2^n − 1 − x`,
+not Python's `−x − 1` -/
+theorem C05_invert_computes {o : Option LinComb} (hi : s.ignoreErrors = false)
+    (h : invertL a s = .ok (o, s')) : valFB o = 2 ^ s.bitlength - 1 - a.value :=
+  (invertL_val hi h).2.2.2
+
+/-- consequently it never agrees with Python -/
+theorem C05_invert_disagrees {o : Option LinComb} (hi : s.ignoreErrors = false)
+    (h : invertL a s = .ok (o, s')) : valFB o ≠ -a.value - 1 := by
+  rw [C05_invert_computes hi h]
+  have : (0 : Int) < 2 ^ s.bitlength := by positivity
+  omega
+
+/-- RECORDED DEVIATION (C05-pow-secret): `x ** e` with a secret exponent is reduced modulo the
+field prime at every step; it is congruent, not equal, to the Python value -/
+theorem C05_pow_secret_congruent (hi : s.ignoreErrors = false) (hone : s.one.value = 1)
+    (h : powLL a b s = .ok (r, s')) :
+    0 ≤ b.value ∧ r.value ≡ a.value ^ b.value.toNat [ZMOD s.p] :=
+  ⟨(powLL_val hi hone h).2.1, (powLL_val hi hone h).2.2.2⟩
+end agrees
+
+/-! ## the same statements at the level of the operator dispatch (`x op y` as the user writes it)
+
+`x` a secret integer (`Val.lc`), `y` a secret integer or a plain int (`IsIntV`, value `ival y`);
+`Val.num` is the value carried by the result. -/
+section dispatch
+variable {s s' : St} {a b c t f : LinComb} {x y v : Val}
+
+theorem C05_val_add_agrees (hy : IsIntV y) (h : addV (.lc a) y s = .ok (v, s')) :
+    ∃ z, v = .lc z ∧ z.value = a.value + ival y := (addLV_int_val hy h).2
+theorem C05_val_sub_agrees (hy : IsIntV y) (h : subV (.lc a) y s = .ok (v, s')) :
+    ∃ z, v = .lc z ∧ z.value = a.value - ival y := (subLV_val hy h).2
+theorem C05_val_rsub_agrees (hx : IsIntV x) (h : subV x (.lc a) s = .ok (v, s')) :
+    ∃ z, v = .lc z ∧ z.value = ival x - a.value := (rsubLV_val hx h).2
+theorem C05_val_neg_agrees (h : unV .neg (.lc a) s = .ok (v, s')) :
+    ∃ z, v = .lc z ∧ z.value = -a.value := (negV_lc_val h).2
+theorem C05_val_mul_agrees (hy : IsIntV y) (h : mulV (.lc a) y s = .ok (v, s')) :
+    ∃ z, v = .lc z ∧ z.value = a.value * ival y := (mulLV_int_val hy h).2
+
+/-- all six comparisons, secret/secret, secret/int and int/secret -/
+theorem C05_val_cmp_agrees {op : Cmp} (hp : Plain s) (hx : IsIntV x) (hy : IsIntV y)
+    (hs : (∃ a, x = .lc a) ∨ ∃ b, y = .lc b) (h : cmpV op x y s = .ok (v, s')) :
+    ∃ r, v = .lcb r ∧ r.value = cmpSem op (ival x) (ival y) := (cmpV_int_val hp hx hy hs h).2
+
+/-- `//`, `%`, `divmod` -/
+theorem C05_val_divmod_agrees {w : DM} (hy : IsIntV y) (h : divmodV w (.lc a) y s = .ok (v, s')) :
+    ∃ qr : LinComb × LinComb, v = pickL w qr ∧
+      qr.1.value = Py.floordiv a.value (ival y) ∧ qr.2.value = Py.mod a.value (ival y) :=
+  (divmodV_int_val hy h).2
+
+/-- `/` -/
+theorem C05_val_truediv_agrees (hp : Plain s) (hy : IsIntV y) (h : truedivV (.lc a) y s = .ok (v, s')) :
+    ∃ z, v = .lc z ∧ ival y ≠ 0 ∧ Py.mod a.value (ival y) = 0 ∧
+      z.value = Py.floordiv a.value (ival y) ∧ z.value * ival y = a.value := (truedivV_int_val hp hy h).2
+
+/-- `x ** n` for a plain `n ≥ 1` -/
+theorem C05_val_pow_agrees {n : Int} (hn : 1 ≤ n) (h : powV (.lc a) (.int n) s = .ok (v, s')) :
+    ∃ z, v = .lc z ∧ z.value = a.value ^ n.toNat := (powV_int_val hn h).2
+
+theorem C05_val_lshift_agrees {n : Int} (h : lshiftV (.lc a) (.int n) s = .ok (v, s')) :
+    0 ≤ n ∧ ∃ z, v = .lc z ∧ z.value = a.value <<< n.toNat := by
+  obtain ⟨-, hn, z, hv, hz⟩ := lshiftLV_int_val h
+  exact ⟨hn, z, hv, by rw [hz, Int.shiftLeft_eq]⟩
+
+theorem C05_val_rshift_agrees {n : Int} (hn : 0 ≤ n) (hi : s.ignoreErrors = false)
+    (h : rshiftV (.lc a) (.int n) s = .ok (v, s')) : v.num = a.value >>> n.toNat :=
+  (rshiftLV_int_val hn hi h).2
+
+/-- `&`, `|`, `^` on two secret integers -/
+theorem C05_val_bitwise_agrees {op : BW} (hi : s.ignoreErrors = false)
+    (h : bwV op (.lc a) (.lc b) s = .ok (v, s')) :
+    0 ≤ a.value ∧ 0 ≤ b.value ∧ v.num = ((bwSem op a.value.toNat b.value.toNat : Nat) : Int) :=
+  (bwLV_lc_val hi h).2
+
+theorem C05_val_abs_agrees (hp : Plain s) (h : unV .abs (.lc a) s = .ok (v, s')) :
+    ∃ z, v = .lc z ∧ z.value = |a.value| := (absV_val hp h).2
+
+/-- selection -/
+theorem C05_val_ite_agrees (hc : c.value = 0 ∨ c.value = 1)
+    (h : ifThenElse (.lcb c) false (.lc t) (.lc f) s = .ok (v, s')) :
+    ∃ z, v = .lc z ∧ z.value = if c.value = 1 then t.value else f.value := (ifThenElse_lc_val hc h).2
+end dispatch
+
+/-! ## the recorded deviations, on the executable model (modulus 97, 8-bit values) -/
+
+/-- `~x` on a `LinComb` is the 8-bit complement: `~5` gives 250; Python: −6 -/
+theorem C05_cex_invert :
+    (match (do let x ← privVal 5; unV .invert (.lc x)) (St.init 97 8 8) with
+     | .ok (.lc r, _) => r.value == 250 | _ => false) = true := by decide +kernel
+
+/-- `b ** 0` on a `LinCombBool` with value 0 gives 0; Python: `0 ** 0 == 1` -/
+theorem C05_cex_bool_pow :
+    (match (do let b ← privValBool 0; powV (.lcb b) (.int 0)) (St.init 97 8 8) with
+     | .ok (.lcb r, _) => r.value == 0 | _ => false) = true := by decide +kernel
+
+/-- `7 // -2` raises; Python: −4 -/
+theorem C05_cex_neg_divisor :
+    (match (do let x ← privVal 7; divmodV .quo (.lc x) (.int (-2))) (St.init 97 8 8) with
+     | .error _ => true | _ => false) = true := by decide +kernel
+
+/-- `LinCombBool(1) & 2` gives 1 (the constant is taken by truthiness); Python: `1 & 2 == 0` -/
+theorem C05_cex_bool_and_const :
+    (match (do let b ← privValBool 1; bwV .and (.lcb b) (.int 2)) (St.init 97 8 8) with
+     | .ok (.lcb r, _) => r.value == 1 | _ => false) = true := by decide +kernel
+
+/-- `(-2) ** e` with a secret exponent `e = 1` gives `p − 2 = 95`; Python: −2 -/
+theorem C05_cex_pow_secret :
+    (match (do let x ← privVal (-2); let e ← privVal 1; powV (.lc x) (.lc e)) (St.init 97 8 8) with
+     | .ok (.lc r, _) => r.value == 95 | _ => false) = true := by decide +kernel
+
+/-- `x >> -1` returns a value (here the top bit, 0); Python raises `ValueError` -/
+theorem C05_cex_rshift_negative :
+    (match (do let x ← privVal 5; rshiftLV x (.int (-1))) (St.init 97 8 8) with
+     | .ok (.lc r, _) => r.value == 0 | _ => false) = true := by decide +kernel
+
+/-! ## non-vacuity -/
+
+/-- the hypotheses of the agreement theorems are satisfiable and the conclusions are the expected
+numbers: `−7 // 2 = −4`, `−7 % 2 = 1`, `3 < 5` is 1, `|−7| = 7` -/
+example :
+    (match (do let x ← privVal (-7); let d ← privVal 2; divmodLL x d) (St.init 97 8 8) with
+     | .ok ((q, r), _) => q.value == -4 && r.value == 1 | _ => false) = true ∧
+    (match (do let x ← privVal 3; let y ← privVal 5; ltLL x y) (St.init 97 8 8) with
+     | .ok (r, _) => r.value == 1 | _ => false) = true ∧
+    (match (do let x ← privVal (-7); absL x) (St.init 97 8 8) with
+     | .ok (r, _) => r.value == 7 | _ => false) = true := by
+  refine ⟨by decide +kernel, by decide +kernel, by decide +kernel⟩
+
+example : Plain (St.init 97 8 8) := ⟨rfl, rfl⟩
+
+/-- an instance of `C05_divmod_agrees` used on a concrete successful run -/
+example : ∃ qr s', divmodLL ⟨-7, []⟩ ⟨2, []⟩ (St.init 97 8 8) = .ok (qr, s') ∧
+    qr.1.value = Py.floordiv (-7) 2 ∧ qr.2.value = Py.mod (-7) 2 := by
+  cases h : divmodLL ⟨-7, []⟩ ⟨2, []⟩ (St.init 97 8 8) with
+  | error e =>
+    have : (match divmodLL ⟨-7, []⟩ ⟨2, []⟩ (St.init 97 8 8) with | .ok _ => true | .error _ => false) = true := by
+      decide +kernel
+    rw [h] at this; cases this
+  | ok r =>
+    obtain ⟨qr, s'⟩ := r
+    exact ⟨qr, s', rfl, (C05_divmod_agrees h).1, (C05_divmod_agrees h).2.1⟩
+
 end Pysnark
